@@ -49,6 +49,7 @@ def record_scenarios(jobs, procs=8):
 
 
 MAX_FINDINGS_PER_BATCH = 4
+WITNESS_MISSES = []          # goals of replayed witness histories that the real fix did not go through (see ArrayTrace.tla)
 
 
 def validate_batch(scs, tag, invariants=INVARIANTS):
@@ -72,6 +73,9 @@ def validate_batch(scs, tag, invariants=INVARIANTS):
         recs = [_Rec(s) for s in rest]
         r = scen.validate(recs, "%s-%d" % (tag, part), invariants=invariants, keep=True)
         states += r["states"] or 0
+        for wm in r.get("witness_miss", []):
+            if wm not in WITNESS_MISSES:
+                WITNESS_MISSES.append(wm)
         # occurrences of known findings met by this run (they do not stop TLC), attributed to their scenario
         for pid_k, sig_k, gl in r.get("known_hits", []):
             if r["line"] is not None and gl > r["line"]:
@@ -350,6 +354,14 @@ def standard_run(pid, tier, profiles, nquick, nthorough, steps=(18, 26), directe
             nev[l["e"]] = nev.get(l["e"], 0) + 1
     det = sum(1 for s in scs for l in s["lines"] if l["e"] in ("Check", "Scrub") and (l["out"].get("derr") or l["out"].get("perr")))
     c01 = sum(1 for s in scs for l in s["lines"] if l["e"] == "Fix" and l["args"].get("expect_c01"))
+    nwit = sum(1 for s in scs if str(s.get("profile", "")).startswith("witness-"))
+    if nwit:
+        miss = sorted(set(g for _, g in WITNESS_MISSES))
+        cov["witness_histories_replayed"] = nwit
+        cov["witness_goals_not_reproduced"] = miss
+        if len(WITNESS_MISSES) * 4 > nwit:
+            raise vlib.ToolFailure("%d of %d replayed witness histories do not go through the branch they were generated for (%s): "
+                                   "specification and spec/witness/fixgoals.json are out of step" % (len(WITNESS_MISSES), nwit, miss))
     cov["steps_with_reported_errors"] = det
     cov["fix_steps_with_c01_precondition"] = c01
     cov["samples"] = [{"seed": s["seed"], "profile": s["profile"], "conf": s["conf"], "steps": s["steps"]} for s in scs[:3]]
